@@ -336,7 +336,7 @@ package ast
 //@ func (*Schema).LocateObject
 //@   property C16
 //@   pure
-//@   requires schema != nil && schema.Objects != nil
+//@   assumes schema != nil && schema.Objects != nil
 //@   modifies nothing
 //@   ensures  found: result.1 == schema.Objects.records.has(name)
 //@   ensures  object: result.1 ==> result.0 == schema.Objects.records[name]
@@ -344,7 +344,7 @@ package ast
 //@ func Schemas.LocateObject
 //@   property C16
 //@   pure
-//@   requires forall s: int :: 0 <= s && s < len(schemas) ==> schemas[s] != nil && schemas[s].Objects != nil
+//@   assumes forall s: int :: 0 <= s && s < len(schemas) ==> schemas[s] != nil && schemas[s].Objects != nil
 //@   modifies nothing
 //@   ensures  nopkg: (forall s: int :: 0 <= s && s < len(schemas) ==> schemas[s].Package != pkg) ==> !result.1
 //@   ensures  first: forall s: int :: 0 <= s && s < len(schemas) && schemas[s].Package == pkg && (forall t: int :: 0 <= t && t < s ==> schemas[t].Package != pkg) ==> result.1 == schemas[s].Objects.records.has(name) && (result.1 ==> result.0 == schemas[s].Objects.records[name])
@@ -354,12 +354,10 @@ package ast
 //@ func Schemas.LocateObjectByRef
 //@   property C16
 //@   inline
-//@   requires forall s: int :: 0 <= s && s < len(schemas) ==> schemas[s] != nil && schemas[s].Objects != nil
 //
 //@ func Schemas.ResolveToType
 //@   property C04 C16
 //@   pure
-//@   requires forall s: int :: 0 <= s && s < len(schemas) ==> schemas[s] != nil && schemas[s].Objects != nil
 //@   modifies nothing
 //@   ensures  nonref: def.Kind != KindRef ==> result == def
 //@   ensures  unknown: def.Kind == KindRef && !call("ast.Schemas.LocateObject", schemas, def.Ref.ReferredPkg, def.Ref.ReferredType).1 ==> result == def
@@ -427,7 +425,6 @@ package ast
 //@ func (*BuilderGenerator).fieldIsRefToConcrete
 //@   property C04 C16
 //@   inline
-//@   requires forall s: int :: 0 <= s && s < len(schemas) ==> schemas[s] != nil && schemas[s].Objects != nil
 //
 //@ func (*BuilderGenerator).structFieldToOption
 //@   property C04 C16
@@ -459,7 +456,6 @@ package ast
 //@   property C04 C16
 //@   requires resolved: call("ast.Schemas.ResolveToType", schemas, object.Type).Kind == KindStruct
 //@   requires schema: schema != nil
-//@   requires schemas: forall s: int :: 0 <= s && s < len(schemas) ==> schemas[s] != nil && schemas[s].Objects != nil
 //@   modifies nothing
 //@   ensures  identity: result.Package == schema.Package && result.For == object && result.Name == object.Name
 //@   ensures  bare: len(result.Properties) == 0 && len(result.VeneerTrail) == 0 && len(result.Factories) == 0 && len(result.Constructor.Args) == 0
